@@ -1,0 +1,121 @@
+//go:build verif
+
+package sourcerunner
+
+import (
+	"context"
+	"log/slog"
+	"sync"
+	"time"
+
+	"reduction.dev/reduction-protocol/handlerpb"
+	"reduction.dev/reduction/batching"
+	"reduction.dev/reduction/connectors"
+	"reduction.dev/reduction/proto"
+	"reduction.dev/reduction/proto/workerpb"
+	"reduction.dev/reduction/workers/wmark"
+)
+
+// Accessor for the verification harness (/verif, property C11). Compiled only
+// with -tags verif.
+
+// VerifLoop is a source runner whose event loop (the real processEvents) is
+// scripted through unbuffered channels standing in for the watermark ticker and
+// the source read channel, and whose output stage is the same goroutine body
+// HandleDeploy starts (the real sendOperatorEvent over the real operator
+// cluster). Every Read / Tick returns once the loop has accepted the item, and
+// the next one is only accepted after the previous one was handled, so the order
+// of the output stream is the order of the calls.
+type VerifLoop struct {
+	r      *SourceRunner
+	tick   chan time.Time
+	reads  chan connectors.ReadFunc
+	cancel context.CancelFunc
+
+	mu       sync.Mutex
+	sent     int // output-stream events fully handled by sendOperatorEvent
+	sendErrs []error
+}
+
+// VerifNewLoop: keyBatch is the batch size of the async KeyEventBatch stage,
+// operatorBatch the batch size of the per-operator event batches (production
+// uses one setting for both); neither has a time-out flush.
+func VerifNewLoop(keyGroupCount int, operators []proto.Operator, keyBatch, operatorBatch int,
+	keyEvents func(ctx context.Context, records [][]byte) ([][]*handlerpb.KeyedEvent, error), errChan chan error) *VerifLoop {
+	ctx, cancel := context.WithCancel(context.Background())
+	l := &VerifLoop{tick: make(chan time.Time), reads: make(chan connectors.ReadFunc), cancel: cancel}
+	keyParams := batching.EventBatcherParams{MaxSize: keyBatch}
+	opParams := batching.EventBatcherParams{MaxSize: operatorBatch}
+	r := &SourceRunner{
+		ID:                 "sr-verif",
+		watermarker:        &wmark.Watermarker{},
+		watermarkTicker:    &time.Ticker{C: l.tick},
+		checkpointBarrier:  make(chan *workerpb.CheckpointBarrier, 1),
+		splitsWereAssigned: make(chan []*workerpb.SourceSplit, 1),
+		sourceChannel:      &connectors.ReadSourceChannel{C: l.reads},
+		outputStream:       make(chan *workerpb.Event, 1_000),
+		errChan:            errChan,
+		batchingParams:     opParams,
+		Logger:             slog.Default(),
+		ctx:                ctx,
+	}
+	r.keyEventChannel = batching.NewReorderFetcher(ctx, batching.NewReorderFetcherParams[[]byte, []*handlerpb.KeyedEvent]{
+		Batcher:    batching.NewEventBatcher[[]byte](ctx, keyParams),
+		FetchBatch: keyEvents,
+		ErrChan:    errChan,
+		BufferSize: keyParams.MaxSize,
+	})
+	r.operators = newOperatorCluster(ctx, &newClusterParams{
+		keyGroupCount:  keyGroupCount,
+		operators:      operators,
+		batchingParams: opParams,
+		errChan:        errChan,
+	})
+	l.r = r
+	go func() { _ = r.processEvents(ctx) }()
+	// the output stage, as in HandleDeploy
+	go func() {
+		for {
+			select {
+			case <-ctx.Done():
+				return
+			case opEvent := <-r.outputStream:
+				err := r.sendOperatorEvent(opEvent)
+				l.mu.Lock()
+				l.sent++
+				if err != nil {
+					l.sendErrs = append(l.sendErrs, err)
+				}
+				l.mu.Unlock()
+			}
+		}
+	}()
+	return l
+}
+
+// Read hands one source read (a list of raw records) to the loop.
+func (l *VerifLoop) Read(records [][]byte) {
+	l.reads <- func() ([][]byte, error) { return records, nil }
+}
+
+// Tick makes the watermark ticker fire once.
+func (l *VerifLoop) Tick() { l.tick <- time.Time{} }
+
+// Sync returns once the loop has finished handling everything handed to it so
+// far (an empty read is accepted only then).
+func (l *VerifLoop) Sync() { l.reads <- func() ([][]byte, error) { return nil, nil } }
+
+// FlushKeyEvents resolves the partially filled KeyEventBatch batch.
+func (l *VerifLoop) FlushKeyEvents() { l.r.keyEventChannel.Flush(l.r.ctx) }
+
+// Sent reports how many output-stream events the output stage has fully handled.
+func (l *VerifLoop) Sent() (int, []error) {
+	l.mu.Lock()
+	defer l.mu.Unlock()
+	return l.sent, l.sendErrs
+}
+
+// FlushOperators pushes partially filled operator batches out.
+func (l *VerifLoop) FlushOperators() { l.r.operators.flush() }
+
+func (l *VerifLoop) Close() { l.cancel() }
